@@ -423,7 +423,59 @@ def p_bc_util(a):
     raise ValueError(f)
 
 
+def p_binner_ops(a):
+    """executes a sequence of bins-manager operations on the real managers; after every
+    operation reports what every handle ever created shows"""
+    ops = a["ops"]
+    vm = {}
+    for o in ops:
+        if o[0] == 1:
+            vm[o[2]] = o[3]
+    valueof = lambda x: vm[x]
+    bs = {True: prtpy.BinnerKeepingContents(valueof), False: prtpy.BinnerKeepingSums(valueof)}
+    handles = []     # (keep, binsarray)
+
+    def show(h):
+        keep, b = h
+        if keep:
+            return [[_int(s), [int(x) for x in l]] for s, l in zip(list(b[0]), list(b[1]))]
+        return [[_int(s), []] for s in list(b)]
+
+    obs = []
+    for o in ops:
+        t = o[0]
+        if t == 0:
+            keep = bool(o[1])
+            handles.append((keep, bs[keep].new_bins(o[2])))
+        elif t == 1:
+            keep, b = handles[o[1]]
+            bs[keep].add_item_to_bin(b, o[2], o[4])
+        elif t == 2:
+            keep, b = handles[o[1]]
+            handles.append((keep, bs[keep].copy_bins(b)))
+        elif t == 3:
+            keep, b = handles[o[1]]
+            bs[keep].sort_by_ascending_sum(b)
+        elif t == 4:
+            keep, b = handles[o[1]]
+            handles.append((keep, bs[keep].add_empty_bins(b, o[2])))
+        elif t == 5:
+            keep, b = handles[o[1]]
+            handles.append((keep, bs[keep].remove_bins(b, o[2])))
+        elif t == 6:
+            keep, b1 = handles[o[1]]
+            _, b2 = handles[o[2]]
+            handles.append((keep, bs[keep].concatenate_bins(b1, b2)))
+        elif t == 7:
+            keep, b1 = handles[o[1]]
+            _, b2 = handles[o[3]]
+            bs[keep].combine_bins(b1, o[2], b2, o[4])
+        obs.append([show(h) for h in handles])
+    return {"obs": obs}
+
+
 PORTS = {
+    "binner_ops": p_binner_ops,
     "partition": p_partition, "pack": p_pack, "cg_clock": p_cg_clock, "cbldm_clock": p_cbldm_clock,
     "cbldm_args": p_cbldm_args, "ckk_generator": p_ckk_generator, "algo_direct": p_algo_direct,
     "objective_value": p_objective_value, "weighted_value": p_weighted_value, "lower_bound": p_lower_bound,
